@@ -95,7 +95,7 @@ template <> struct WOps<RBox> {
 template <class D> struct WidenHarness : Harness {
   typedef ObjHarness<D> OH;
   const char* name() const override { return "widen"; }
-  int child_seconds() const override { return 20; }
+  int child_seconds() const override { return 60; }
 
   Plan generate(Rng& r, const std::string&, bool thorough) override {
     Plan p; p.domain = Dom<D>::name();
